@@ -61,10 +61,22 @@ def gen_desc(rng, k):
         d["required"] = [x for x in rng.sample(["D", "N", "Si"], rng.randint(1, 2)) if not d["allowed"] or x in d["allowed"]]
     if rng.random() < 0.4:
         idx = rng.sample(range(1, len(lines) + 1), rng.randint(1, 2))
-        d["rate_modifier"] = {str(i): rng.choice(["1.0e-10", "2.0 * zeta", "1e-9*exp(-10.0/Tgas)"]) for i in idx}
+        # a replacement rate is any C expression; through the API it may also be a plain number (0.0 switches a reaction off)
+        d["rate_modifier"] = {str(i): rng.choice(["1.0e-10", "2.0 * zeta", "1e-9*exp(-10.0/Tgas)", 0.0, 0, 2.5e-10, "0.0"]) for i in idx}
     if rng.random() < 0.4 and not upper and not d["allowed"]:
-        tgt = rng.choice(["H2", "CO", "H"])
-        d["ode_modifier"] = {tgt: {"factors": [rng.choice(["1e-3", "-2.0*k[0]"])], "reactants": [rng.sample(["H", "CO", "He"], rng.randint(1, 2))]}}
+        # 1-4 terms over 1-2 targets, in a random order (so a target's terms may be split over several occurrences of the option)
+        om, order = {}, []
+        tgts = rng.sample(["H2", "CO", "H"], rng.randint(1, 2))
+        for _ in range(rng.randint(1, 4)):
+            tgt = rng.choice(tgts)
+            fact, dep = rng.choice(["1e-3", "-2.0*k[0]", "-1.5e-2", "0.25"]), rng.sample(["H", "CO", "He"], rng.randint(1, 2))
+            om.setdefault(tgt, {"factors": [], "reactants": []})
+            om[tgt]["factors"].append(fact)
+            om[tgt]["reactants"].append(dep)
+            order.append((tgt, fact, dep))
+        d["ode_modifier"] = om
+        d["ode_modifier_terms"] = order
+        d["ode_modifier_cuts"] = sorted(rng.sample(range(1, len(order)), rng.randint(0, len(order) - 1))) if len(order) > 1 else []
     if rng.random() < 0.3 and not upper and not d["allowed"]:
         d["cooling"] = ["RC_HeII"]
     if rng.random() < 0.3:
@@ -80,10 +92,12 @@ def option_string(d, name):
     bs = ",".join(f"{s}={sv}" for s, sv in d["binding"].items())
     ys = ",".join(f"{s}={sv}" for s, sv in d["yield"].items())
     rm = ",".join(f"{r}:{rv}" for r, rv in d["rate_modifier"].items())
-    om = ""
-    for sname, expr in d["ode_modifier"].items():
-        for fact, dep in zip(expr["factors"], expr["reactants"]):
-            om += f"{sname}:{fact},[{' '.join(dep)}];"
+    # `--ode-modifier` may be given several times; each occurrence holds `;`-terminated terms
+    terms = d.get("ode_modifier_terms") or [(sname, fact, dep) for sname, expr in d["ode_modifier"].items()
+                                            for fact, dep in zip(expr["factors"], expr["reactants"])]
+    cuts = [0] + list(d.get("ode_modifier_cuts") or []) + [len(terms)]
+    oms = ["".join(f"{sname}:{fact},[{' '.join(dep)}];" for sname, fact, dep in terms[a:b]) for a, b in zip(cuts, cuts[1:])]
+    oms = [o for o in oms if o]
     solver, method, device = BACK[d["method"]]
     files = ",".join(f"net{i}.{fmt}" for i, (_, fmt) in enumerate(d["files"]))
     fmts = ",".join(fmt for _, fmt in d["files"])
@@ -96,7 +110,7 @@ def option_string(d, name):
             f"--cooling='{','.join(d['cooling'])}'", f"--shielding='{sh}'"]
     if rm:
         opts.append(f"--rate-modifier='{rm}'")
-    if om:
+    for om in oms:
         opts.append(f"--ode-modifier='{om}'")
     opts += [f"--solver={solver}", f"--device={device}", f"--method={method}", "--render", "--render-force"]
     strings = {"lists": [",".join(d["elements"]), ",".join(d["pseudo"]), ",".join(d["allowed"]), ",".join(d["required"]),
@@ -115,7 +129,7 @@ def toml_description(text):
         "binding": dict(ch["species"]["binding_energy"]), "yield": dict(ch["species"]["photon_yield"]),
         "grain_model": ch["grain"]["model"], "files": list(ch["network"]["files"]), "formats": list(ch["network"]["formats"]),
         "heating": list(ch["thermal"]["heating"]), "cooling": list(ch["thermal"]["cooling"]), "shielding": dict(ch["shielding"]),
-        "rate_modifier": {str(k): v for k, v in dict(ch["rate_modifier"]).items()},
+        "rate_modifier": {str(k): str(v) for k, v in dict(ch["rate_modifier"]).items()},
         "ode_modifier": json.loads(json.dumps(dict(ch["ode_modifier"]))),
         "solver": [doc["ODEsolver"]["solver"], doc["ODEsolver"]["method"], doc["ODEsolver"]["device"]],
     }
@@ -126,7 +140,7 @@ def requested_description(d):
         "elements": d["elements"], "pseudo": d["pseudo"], "replacement": d["replacement"], "kwargs": d["kwargs"],
         "allowed": d["allowed"], "required": d["required"], "binding": d["binding"], "yield": d["yield"], "grain_model": d["grain_model"],
         "files": [f"net{i}.{fmt}" for i, (_, fmt) in enumerate(d["files"])], "formats": [fmt for _, fmt in d["files"]],
-        "heating": d["heating"], "cooling": d["cooling"], "shielding": d["shielding"], "rate_modifier": d["rate_modifier"],
+        "heating": d["heating"], "cooling": d["cooling"], "shielding": d["shielding"], "rate_modifier": {str(k): str(v) for k, v in d["rate_modifier"].items()},
         "ode_modifier": d["ode_modifier"], "solver": list(BACK[d["method"]]),
     }
 
@@ -149,6 +163,28 @@ def run(argv):
             d["kwargs"]["bulk_prefix"] = "%"          # F12 witness always first
         if k == 1:
             d["rate_modifier"] = {"2": "1.0e-10"}      # F19 witness (export path) always second
+        while k == 2 and d["replacement"]:
+            d = gen_desc(rng, k)
+        if k == 2:
+            # the same target named in three separate occurrences of --ode-modifier, another target in between
+            d["allowed"], d["cooling"] = [], []
+            terms = [("H", "-1.5e-2", ["H"]), ("CO", "1e-3", ["CO", "He"]), ("H", "0.25", ["H", "CO"])]
+            d["ode_modifier"] = {"H": {"factors": ["-1.5e-2", "0.25"], "reactants": [["H"], ["H", "CO"]]},
+                                 "CO": {"factors": ["1e-3"], "reactants": [["CO", "He"]]}}
+            d["ode_modifier_terms"], d["ode_modifier_cuts"] = terms, [1, 2]
+        if k == 3:
+            # user binding energies / yields for ice species whose names contain *replaced* element symbols (MG -> Mg):
+            # the keys of those tables are species names and follow the project's own replacement table
+            d = gen_desc(rng, k)
+            while not d["replacement"]:
+                d = gen_desc(rng, k)
+            ice = [native(11, ["MG"], ["#MG"], a=1.0, ty=200), native(12, ["#MG"], ["MG"], a=1.0, ty=201),
+                   native(13, ["HCL"], ["#HCL"], a=1.0, ty=200), native(14, ["#HCL"], ["HCL"], a=1.0, ty=201),
+                   native(15, ["CL", "H"], ["HCL"])]
+            d["kwargs"] = {"grain_symbol": "GRAIN", "surface_prefix": "#", "bulk_prefix": "@"}
+            d["files"] = [[d["files"][0][0] + "\n".join(ice) + "\n", "naunet"]]
+            d["grain_model"], d["allowed"], d["required"], d["cooling"], d["shielding"] = "hh93", [], [], [], {}
+            d["binding"], d["yield"] = {"#MG": 4321.0, "#HCL": 5172.0}, {"#HCL": 2.5e-3}
         descs.append(d)
     ex_cases = [4, 5, 7, 8, 11] if tier == "quick" else [0, 1, 3, 4, 5, 6, 7, 8, 9, 10, 11, 16, 17, 18]
     process(chk, descs, ex_cases)
